@@ -90,14 +90,40 @@ def main():
     fb_keys = []            # NT (table, key) of feedback j, in collection order
     owners = case["fb_owners"]          # list: -1 = robot, else component index, grouped in collection order
 
-    def make_fb(j):
+    def fb_kind(j):
+        if j % 5 == 4:
+            return "list"          # -> list[int], the SAME list object every time, updated in place
         if j % 3 == 2:
-            # no return annotation: the topic type is inferred from the value (a string here)
+            return "str"           # no return annotation: the topic type is inferred from the value (a string)
+        if j % 4 == 1:
+            return "int_quoted"    # -> "int": a string (postponed) annotation
+        return "int"
+
+    bufs = {}
+
+    def make_fb(j):
+        kind = fb_kind(j)
+        if kind == "str":
             def getter(self):
                 k = begin(["cb", "Feedback", j])
                 if k in raises:
                     raise fault(k)
                 return "s%d" % fbval.get(k, 0)
+        elif kind == "list":
+            buf = bufs.setdefault(j, [0, 7])
+
+            def getter(self) -> list[int]:
+                k = begin(["cb", "Feedback", j])
+                if k in raises:
+                    raise fault(k)
+                buf[0] = fbval.get(k, 0)
+                return buf
+        elif kind == "int_quoted":
+            def getter(self) -> "int":
+                k = begin(["cb", "Feedback", j])
+                if k in raises:
+                    raise fault(k)
+                return fbval.get(k, 0)
         else:
             def getter(self) -> int:
                 k = begin(["cb", "Feedback", j])
@@ -131,7 +157,7 @@ def main():
                     raise fault(k)
             return execute
         ns["execute"] = mk(i)
-        if spec.get("preassign"):
+        if spec.get("preassign") and not spec.get("sm"):
             def mk_init(i):
                 def __init__(self):
                     for a in range(nattr):
@@ -165,7 +191,17 @@ def main():
         for j, o in enumerate(owners):
             if o == i:
                 ns["get_f%03d" % j] = make_fb(j)
-        bases = (type("CompBase%d" % i, (), basens),) if spec["inherit"] else ()
+        if spec.get("sm"):
+            # a component that is a StateMachine (its own execute() is scripted like any other component's)
+            from magicbot import StateMachine, state as sm_state
+
+            def _idle(self):
+                pass
+            _idle.__name__ = "idle"
+            (basens if spec["inherit"] else ns)["idle"] = sm_state(first=True)(_idle)
+            bases = (type("CompBase%d" % i, (StateMachine,), basens),) if spec["inherit"] else (StateMachine,)
+        else:
+            bases = (type("CompBase%d" % i, (), basens),) if spec["inherit"] else ()
         comp_classes.append(type("Comp%d" % i, bases, ns))
 
     # ---- the robot ------------------------------------------------------------
@@ -177,10 +213,15 @@ def main():
             val = e.getValue()
             if e.exists() and val.isValid():
                 x = val.value()
-                if isinstance(x, str):
-                    x = int(x[1:]) if (x[:1] == "s" and x[1:].lstrip("-").isdigit() and j % 3 == 2) else -999999
-                elif j % 3 == 2:
-                    x = -999998          # an un-hinted string feedback must be published as a string
+                kind = fb_kind(j)
+                if kind == "str":
+                    # an un-hinted string feedback must be published as a string
+                    x = int(x[1:]) if (isinstance(x, str) and x[:1] == "s" and x[1:].lstrip("-").isdigit()) else -999998
+                elif kind == "list":
+                    x = x[0] if (val.isIntegerArray() and len(x) == 2 and x[1] == 7) else -999996
+                else:
+                    # the topic type follows the return hint (also when it is written as a string): an integer topic
+                    x = x if (val.isInteger() and not isinstance(x, bool)) else -999997
                 vals.append(int(x))
             else:
                 vals.append(None)
